@@ -150,7 +150,12 @@ pub(crate) enum Ev<'a> {
     /// End of a sequence.
     SeqEnd { location: Location },
     /// Start of a mapping (`{` or block mapping).
-    MapStart { anchor: usize, location: Location },
+    MapStart {
+        anchor: usize,
+        tag: SfTag,
+        raw_tag: Option<Cow<'a, str>>,
+        location: Location,
+    },
     /// End of a mapping.
     MapEnd { location: Location },
     /// The event have been taken from the array, with only location remaining. This should not
@@ -211,6 +216,53 @@ fn simple_tagged_enum_name(raw_tag: &Option<Cow<'_, str>>, tag: &SfTag) -> Optio
     }
 
     Some(candidate.to_owned())
+}
+
+/// Consume the container node at the front of `ev` (its start event, everything nested in it
+/// and the matching end event) and return the events with the tag of the start event removed.
+///
+/// Used by:
+/// - Enum deserialization when a tag on a sequence or mapping selects the variant: the
+///   container is then replayed as the untagged payload of that variant.
+fn take_container_without_tag<'de>(ev: &mut dyn Events<'de>) -> Result<Vec<Ev<'de>>, Error> {
+    let mut events = Vec::new();
+    match ev.next()? {
+        Some(Ev::SeqStart {
+            anchor, location, ..
+        }) => events.push(Ev::SeqStart {
+            anchor,
+            tag: SfTag::None,
+            raw_tag: None,
+            location,
+        }),
+        Some(Ev::MapStart {
+            anchor, location, ..
+        }) => events.push(Ev::MapStart {
+            anchor,
+            tag: SfTag::None,
+            raw_tag: None,
+            location,
+        }),
+        Some(other) => {
+            return Err(Error::unexpected("container start").with_location(other.location()));
+        }
+        None => return Err(Error::eof().with_location(ev.last_location())),
+    }
+    let mut depth = 1usize;
+    while depth > 0 {
+        match ev.next()? {
+            Some(event) => {
+                match event {
+                    Ev::SeqStart { .. } | Ev::MapStart { .. } => depth += 1,
+                    Ev::SeqEnd { .. } | Ev::MapEnd { .. } => depth -= 1,
+                    Ev::Scalar { .. } | Ev::Taken { .. } => {}
+                }
+                events.push(event);
+            }
+            None => return Err(Error::eof().with_location(ev.last_location())),
+        }
+    }
+    Ok(events)
 }
 
 /// Canonical fingerprint of a YAML node for duplicate-key detection.
@@ -512,8 +564,18 @@ fn capture_node<'a>(ev: &mut dyn Events<'a>) -> Result<KeyNode<'a>, Error> {
                 location,
             })
         }
-        Ev::MapStart { anchor, location } => {
-            let mut events = vec![Ev::MapStart { anchor, location }];
+        Ev::MapStart {
+            anchor,
+            tag,
+            raw_tag,
+            location,
+        } => {
+            let mut events = vec![Ev::MapStart {
+                anchor,
+                tag,
+                raw_tag,
+                location,
+            }];
             let mut entries = Vec::new();
             loop {
                 match ev.peek()? {
@@ -2244,8 +2306,15 @@ impl<'de, 'e> de::Deserializer<'de> for YamlDeserializer<'de, 'e> {
                                     value_events = events.drain(vs..ve).collect();
                                     // Build empty map events using the first and last from original events
                                     let start = match events.first() {
-                                        Some(Ev::MapStart { anchor, location }) => Ev::MapStart {
+                                        Some(Ev::MapStart {
+                                            anchor,
+                                            tag,
+                                            raw_tag,
+                                            location,
+                                        }) => Ev::MapStart {
                                             anchor: *anchor,
+                                            tag: *tag,
+                                            raw_tag: raw_tag.clone(),
                                             location: *location,
                                         },
                                         Some(other) => other.clone(),
@@ -2685,7 +2754,29 @@ impl<'de, 'e> de::Deserializer<'de> for YamlDeserializer<'de, 'e> {
                     Mode::Unit(value, loc)
                 }
             }
-            Some(Ev::MapStart { .. }) => {
+            Some(Ev::MapStart {
+                tag,
+                raw_tag,
+                location,
+                ..
+            }) => {
+                if let Some(tag_name) = simple_tagged_enum_name(raw_tag, tag) {
+                    if _variants.contains(&tag_name.as_str()) {
+                        // The tag selects the variant and the mapping is its payload:
+                        // consume the whole mapping and replay it as an untagged mapping.
+                        let start_loc = *location;
+                        let replay_events = take_container_without_tag(self.ev)?;
+                        let replay = Box::new(ReplayEvents::new(replay_events));
+                        return visitor.visit_enum(TaggedEA {
+                            replay,
+                            cfg: self.cfg,
+                            variant: tag_name,
+                            variant_location: start_loc,
+                        });
+                    }
+                    // Any other custom tag must name the enum itself (checked below).
+                    tagged_enum = Some((tag_name, *location));
+                }
                 self.expect_map_start()?;
                 match self.ev.next()? {
                     Some(Ev::Scalar {
@@ -2720,47 +2811,9 @@ impl<'de, 'e> de::Deserializer<'de> for YamlDeserializer<'de, 'e> {
                 if let Some(tag_name) = simple_tagged_enum_name(raw_tag, tag)
                     && _variants.contains(&tag_name.as_str())
                 {
-                    // Consume the SeqStart, collect all events until SeqEnd, replay as untagged sequence
-                    let seq_start = self.ev.next()?.unwrap();
-                    let start_loc = seq_start.location();
-                    let mut replay_events: Vec<Ev<'de>> = Vec::new();
-                    // Re-emit SeqStart without tag
-                    if let Ev::SeqStart {
-                        anchor, location, ..
-                    } = seq_start
-                    {
-                        replay_events.push(Ev::SeqStart {
-                            anchor,
-                            tag: SfTag::None,
-                            raw_tag: None,
-                            location,
-                        });
-                    }
-                    let mut depth = 1usize;
-                    while depth > 0 {
-                        match self.ev.next()? {
-                            Some(ev @ Ev::SeqStart { .. }) => {
-                                depth += 1;
-                                replay_events.push(ev);
-                            }
-                            Some(ev @ Ev::SeqEnd { .. }) => {
-                                depth -= 1;
-                                replay_events.push(ev);
-                            }
-                            Some(ev @ Ev::MapStart { .. }) => {
-                                depth += 1;
-                                replay_events.push(ev);
-                            }
-                            Some(ev @ Ev::MapEnd { .. }) => {
-                                depth -= 1;
-                                replay_events.push(ev);
-                            }
-                            Some(ev) => {
-                                replay_events.push(ev);
-                            }
-                            None => return Err(Error::eof().with_location(self.ev.last_location())),
-                        }
-                    }
+                    // Consume the whole sequence and replay it as an untagged sequence
+                    let start_loc = *location;
+                    let replay_events = take_container_without_tag(self.ev)?;
                     let replay = Box::new(ReplayEvents::new(replay_events));
                     return visitor.visit_enum(TaggedEA {
                         replay,
